@@ -543,6 +543,39 @@ pub(crate) mod verif_q {
         core::mem::forget(q);
     }
 
+    /// Delay changes BEFORE the player's first input (fresh queue at any configured delay d0, then any d1): nothing is
+    /// announced as a fill - there is no input to repeat and the peers apply the default input until the delay has
+    /// elapsed - and the first input lands on frame d1 with exactly the frames 0..d1 blank before it, so what the
+    /// owner stores is what the peers assume.
+    #[kani::proof]
+    #[kani::unwind(10)]
+    fn q_delay_before_first_input() {
+        let mut q = InputQueue::<CfgRL>::new();
+        let d0: usize = kani::any();
+        let d1: usize = kani::any();
+        kani::assume(d0 <= MAX_DELAY && d1 <= MAX_DELAY);
+        let f0 = q.set_frame_delay(d0);
+        assert!(f0.is_empty(), "C11: nothing to announce when the delay is configured");
+        let f1 = q.set_frame_delay(d1);
+        assert!(f1.is_empty(), "C11: no fills are announced before the first input");
+        assert!(q.frame_delay == d1);
+        let v: u8 = kani::any();
+        let r = q.add_input(PlayerInput::new(0, v));
+        assert!(r == d1 as Frame, "the first input lands on frame d1");
+        let mut f = 0;
+        while f < d1 {
+            assert!(q.inputs[f % N].frame == f as Frame && q.inputs[f % N].input == 0, "default input before the delay has elapsed");
+            f += 1;
+        }
+        assert!(q.inputs[d1 % N] == PlayerInput::new(d1 as Frame, v));
+        assert!(q.last_added_frame == d1 as Frame && q.length == d1 + 1);
+        kani::cover!(d0 > 0 && d1 > d0, "configured delay raised before the first input");
+        kani::cover!(d1 < d0, "configured delay lowered before the first input");
+        core::mem::forget(f0);
+        core::mem::forget(f1);
+        core::mem::forget(q);
+    }
+
     fn delay_twice(d0: usize, d1: usize, d2: usize) {
         let (mut q, g) = any_queue::<CfgRL>();
         kani::assume(inv(&q, &g));
